@@ -10,6 +10,7 @@
     failure ↔ failure, no pairs, and the frame is intact (so every catcher's `restore`
     gives back exactly the state L0 simply re-uses).
 -/
+import PestModel.Hyps
 import PestModel.Lemmas.Frame
 
 namespace Pest
@@ -51,14 +52,6 @@ def RelT (c : PState) : R1 → R0 → Prop
   | .oof, r0 => r0 = .oof
   | .exc k, r0 => k = .keyError ∧ r0 = .stuck
   | .done _ c' ps, r0 => r0 = .ok (abs0 c') (eraseTagsL ps) ∧ Frame c c'
-
-/-- expressions that cannot fail whatever their sub-expressions do (the bodies the optimizer
-    gives to the fused `SKIP` rule) -/
-def totalBody : Expr → Bool
-  | .rep _ => true
-  | .optChoice _ true => true
-  | .skipUntil _ => true
-  | _ => false
 
 structure Good (r1 : Sem1) (r0 : Sem0) : Prop where
   rel : ∀ e c, Pre c → Rel c (r1 e c) (r0 e (abs0 c))
